@@ -127,7 +127,7 @@ Definition kv_chk_C01 (c : scase * list ostep) : bool := chk_C01_full c.
 Definition kv_chk_C02 (c : scase * list ostep) : bool := chk_C02_kv c.
 Definition kv_chk_C05 (c : scase * list ostep) : bool := chk_C05_full c && chk_expiry_kv chk_row_C05 c.
 Definition kv_chk_C06 (c : scase * list ostep) : bool := chk_C06_kv c.
-Definition kv_chk_C07 (c : scase * list ostep) : bool := chk_C07_kv c.
+Definition kv_chk_C07 (c : scase * list ostep) : bool := chk_C07_full c.
 Definition kv_chk_C08 (c : scase * list ostep) : bool := chk_C08_kv c && chk_expiry_kv chk_row_C08 c.
 Definition kv_chk_C17 (c : scase * list ostep) : bool := chk_C17_kv c && chk_expiry_kv chk_row_C17 c.
 
